@@ -317,6 +317,8 @@ def main(prop):
     seed = int(os.environ.get('VERIF_SEED', '0') or 0)
     t0 = time.time()
     sys.path.insert(0, REPO)
+    import logging
+    logging.disable(logging.CRITICAL)
 
     if a.replay:
         payload = json.load(open(a.replay))
